@@ -295,6 +295,11 @@ pub const ATOMS: &[&str] = &[
     // a link whose text is its url
     "[k](k)",
     "[2](2)",
+    // link texts that open or close with markup (external links keep their text)
+    "[`c` w](http://x)",
+    "[**w** v](http://x)",
+    "[w `c`](http://x)",
+    "[*w*](k)",
 ];
 
 pub const HOSTS: &[&str] = &["para", "heading", "item", "nested-item", "quote", "cell"];
